@@ -5,7 +5,7 @@
    Conjuncts of the property that are NOT theorems here (they rest on the exact
    correspondence run and the dense oracle only) are listed at the end. *)
 From Coq Require Import List Arith Bool Ring.
-From Verif.C16 Require Import Model Proofs.
+From Verif.C16 Require Import Model Proofs Proofs2.
 Import ListNotations.
 
 Section Props.
@@ -25,13 +25,10 @@ Theorem apply_tprod_spec : forall ops (X : arr R) sS sT,
     aat R (apply_tprod R rO radd rmul ops X) (a ++ t) = tprod_spec R rO radd rmul ops (aat R X) (a ++ t).
 Proof. exact (apply_tprod_spec_l R rO radd rmul). Qed.
 
-(* NOT PROVED: kron_dense_spec -- forall ops and x of shape (N,), (N,1), (N,m):
-     _apply_kronecker_dense ops x = np.kron(A_1,..,A_n) . x   (flat row/column indices).
-   Missing: the two reshapes around the core (ravel/unravel of np.kron's row and column index).
-   Proved: the core of _apply_kronecker_dense (kronecker.py:68) on the reshaped argument is the
+(* the core of _apply_kronecker_dense (kronecker.py:68) on the reshaped argument is the
    Kronecker action in multi-index form, for any number of rectangular operands of any kind and
-   a trailing right-hand-side axis. *)
-Theorem kron_dense_spec_partial : forall (ops : list (operand R)) (X : arr R) sT,
+   a trailing right-hand-side axis *)
+Theorem kron_core_spec : forall (ops : list (operand R)) (X : arr R) sT,
   ashape R X = map (fun o => mcols R (omat R o)) ops ++ sT ->
   ashape R (apply_tprod R rO radd rmul (map Some ops) X) = map (fun o => mrows R (omat R o)) ops ++ sT /\
   forall a t, inr a (map (fun o => mrows R (omat R o)) ops) -> inr t sT ->
@@ -115,10 +112,141 @@ Theorem rowsubset_spec : forall A rows x i, csr_wf R A ->
   csr_rowsubset R rO radd rmul A rows x i = mv R rO radd rmul (csr_dense R rO radd A) x (nth i rows 0).
 Proof. exact (rowsubset_spec_l R rO rI radd rmul rsub ropp Rth). Qed.
 
+(* ------------------------------------------------------------------------------------------ *)
+Local Notation kron_ent := (Proofs2.kron_ent R rI rmul).
+Local Notation kron_dense := (Proofs2.kron_dense R rI rmul).
+Local Notation sumn := (Model.sumn R rO radd).
+Local Notation omats ops := (map (omat R) ops).
+Local Notation orows ops := (map (fun o => mrows R (omat R o)) ops).
+Local Notation ocols ops := (map (fun o => mcols R (omat R o)) ops).
+
+(* kron_ent ops i j is np.kron(A_1, np.kron(A_2, ...))[i, j]:
+   A_1[i / R', j / C'] * kron(rest)[i mod R', j mod C'] (Proofs2.kron_ent).
+
+   _apply_kronecker_dense (kronecker.py:59-69), vector argument: for any number of operands of
+   any kind and any (rectangular) shapes the result is the flat Kronecker matrix times x ... *)
+Theorem kron_dense_spec : forall (ops : list (operand R)) (x : arr R) i,
+  ashape R x = [prodl (ocols ops)] -> i < prodl (orows ops) ->
+  aat R (apply_kronecker_dense R rO radd rmul ops x) [i] =
+  sumn (prodl (ocols ops)) (fun j => rmul (kron_ent (omats ops) i j) (aat R x [j])).
+Proof. exact (kron_dense_vec_l R rO rI radd rmul rsub ropp Rth). Qed.
+
+(* ... and for (N,m) arguments, m = 1 (no trailing axis, kronecker.py:64) and m > 1 *)
+Theorem kron_dense_spec_multi : forall (ops : list (operand R)) (x : arr R) m i c,
+  ashape R x = [prodl (ocols ops); m] -> i < prodl (orows ops) -> c < m ->
+  aat R (apply_kronecker_dense R rO radd rmul ops x) [i; c] =
+  sumn (prodl (ocols ops)) (fun j => rmul (kron_ent (omats ops) i j) (aat R x [j; c])).
+Proof. exact (kron_dense_mat_l R rO rI radd rmul rsub ropp Rth). Qed.
+
+(* _apply_kronecker_linops (kronecker.py:15-56): the column-major sweeps over square factors
+   (any number, any sizes) compute the same product; vectors ... *)
+Theorem kron_linops_spec : forall (ops : list (operand R)) (x : arr R) i,
+  squares R ops -> ashape R x = [prodl (orows ops)] -> i < prodl (orows ops) ->
+  aat R (apply_kronecker_linops R rO radd rmul ops x) [i] =
+  sumn (prodl (orows ops)) (fun j => rmul (kron_ent (omats ops) i j) (aat R x [j])).
+Proof. exact (kron_linops_vec_l R rO rI radd rmul rsub ropp Rth). Qed.
+
+(* ... and (N,m) arguments (per-column loop l.49-52; m = 1 branch l.46-47) *)
+Theorem kron_linops_spec_multi : forall (ops : list (operand R)) (x : arr R) m i c,
+  squares R ops -> ashape R x = [prodl (orows ops); m] -> i < prodl (orows ops) ->
+  aat R (apply_kronecker_linops R rO radd rmul ops x) [i; c] =
+  sumn (prodl (orows ops)) (fun j => rmul (kron_ent (omats ops) i j) (aat R x [j; c])).
+Proof. exact (kron_linops_mat_l R rO rI radd rmul rsub ropp Rth). Qed.
+
+(* KroneckerOperator (operators.py:60-86): whichever branch the dispatch takes, for operands of
+   any kind and shape, the operator acts like np.kron of the operands *)
+Theorem kron_operator_spec : forall (ops : list (operand R)) (x : arr R) i,
+  ashape R x = [prodl (ocols ops)] -> i < prodl (orows ops) ->
+  aat R (kronecker_operator R rO radd rmul ops x) [i] =
+  sumn (prodl (ocols ops)) (fun j => rmul (kron_ent (omats ops) i j) (aat R x [j])).
+Proof. exact (kron_operator_vec_l R rO rI radd rmul rsub ropp Rth). Qed.
+
+Theorem kron_operator_spec_multi : forall (ops : list (operand R)) (x : arr R) m i c,
+  ashape R x = [prodl (ocols ops); m] -> i < prodl (orows ops) -> c < m ->
+  aat R (kronecker_operator R rO radd rmul ops x) [i; c] =
+  sumn (prodl (ocols ops)) (fun j => rmul (kron_ent (omats ops) i j) (aat R x [j; c])).
+Proof. exact (kron_operator_mat_l R rO rI radd rmul rsub ropp Rth). Qed.
+
+(* KroneckerOperator._transpose (operators.py:82-83) acts like the transposed Kronecker matrix *)
+Theorem kron_transpose : forall (ops : list (operand R)) (x : arr R) i,
+  ashape R x = [prodl (orows ops)] -> i < prodl (ocols ops) ->
+  aat R (kronecker_operator_T R rO radd rmul ops x) [i] =
+  sumn (prodl (orows ops)) (fun j => rmul (ment R (mT R (kron_dense (omats ops))) i j) (aat R x [j])).
+Proof. exact (kron_transpose_vec_l R rO rI radd rmul rsub ropp Rth). Qed.
+
+Theorem kron_transpose_multi : forall (ops : list (operand R)) (x : arr R) m i c,
+  ashape R x = [prodl (orows ops); m] -> i < prodl (ocols ops) -> c < m ->
+  aat R (kronecker_operator_T R rO radd rmul ops x) [i; c] =
+  sumn (prodl (orows ops)) (fun j => rmul (ment R (mT R (kron_dense (omats ops))) i j) (aat R x [j; c])).
+Proof. exact (kron_transpose_mat_l R rO rI radd rmul rsub ropp Rth). Qed.
+
+(* modek_tprod (tensor.py:150-167), dense and sparse/LinearOperator branch: the new axis is put
+   back in position k *)
+Theorem modek_tprod_shape : forall (B : operand R) k (X : arr R),
+  nth k (ashape R X) 0 = mcols R (omat R B) ->
+  ashape R (modek_tprod R rO radd rmul B k X) = insert_at k (mrows R (omat R B)) (remove_at k (ashape R X)).
+Proof. exact (modek_tprod_shape_l R rO radd rmul). Qed.
+
+Theorem modek_tprod_spec : forall (B : operand R) k (X : arr R) idx,
+  inr (remove_at k idx) (remove_at k (ashape R X)) ->
+  aat R (modek_tprod R rO radd rmul B k X) idx =
+  sumn (mcols R (omat R B))
+       (fun j => rmul (ment R (omat R B) (nth k idx 0) j) (aat R X (insert_at k j (remove_at k idx)))).
+Proof. exact (modek_tprod_spec_l R rO rI radd rmul rsub ropp Rth). Qed.
+
+(* BlockOperator (operators.py:138-178): ranges from the block heights/widths, null blocks
+   skipped; for every rectangular grid whose blocks have the shape of their cell (the assertion
+   of l.171) the operator acts like np.block of the grid with zero blocks (grid_ent) ... *)
+Theorem grid_block_spec : forall grid hs ws x r, wf_grid R grid hs ws ->
+  base_block_matvec R rO radd rmul (block_operator R grid hs ws) x r =
+  mv R rO radd rmul (grid_dense R rO grid hs ws) x r.
+Proof. exact (grid_block_spec_l R rO rI radd rmul rsub ropp Rth). Qed.
+
+(* ... and its transpose like the transposed np.block matrix *)
+Theorem grid_block_transpose : forall grid hs ws x r, wf_grid R grid hs ws ->
+  (forall b, In b (block_operator R grid hs ws) -> pro R b + mrows R (pb R b) <= suml hs) ->
+  base_block_matvec R rO radd rmul (map (placed_T R) (block_operator R grid hs ws)) x r =
+  mv R rO radd rmul (mT R (grid_dense R rO grid hs ws)) x r.
+Proof. exact (grid_block_transpose_l R rO rI radd rmul rsub ropp Rth). Qed.
+
+(* make_kronecker_solver (operators.py:279-284) = KroneckerOperator of the factor solvers.
+   Hypothesis (contract of make_solver, not proved: LAPACK/SuperLU): B_k . Binv_k is the identity
+   (deltas (mmuls Bs Binvs)).  Then kron(B_1..B_n) . (solver . x) = x, for vectors ... *)
+Theorem kron_solver_inverts : forall (Bs : list (mat R)) (Binvs : list (operand R)) (x : arr R),
+  compat R Bs (omats Binvs) -> deltas R rO rI (mmuls R rO radd rmul Bs (omats Binvs)) -> squares R Binvs ->
+  ashape R x = [prodl (ocols Binvs)] ->
+  forall i, i < prodl (rowsl R Bs) ->
+  sumn (prodl (colsl R Bs))
+       (fun j => rmul (kron_ent Bs i j) (aat R (kronecker_operator R rO radd rmul Binvs x) [j])) = aat R x [i].
+Proof. exact (kron_solver_vec_l R rO rI radd rmul rsub ropp Rth). Qed.
+
+(* ... and several right-hand sides *)
+Theorem kron_solver_inverts_multi : forall (Bs : list (mat R)) (Binvs : list (operand R)) (x : arr R) m c,
+  compat R Bs (omats Binvs) -> deltas R rO rI (mmuls R rO radd rmul Bs (omats Binvs)) -> squares R Binvs ->
+  ashape R x = [prodl (ocols Binvs); m] -> c < m ->
+  forall i, i < prodl (rowsl R Bs) ->
+  sumn (prodl (colsl R Bs))
+       (fun j => rmul (kron_ent Bs i j) (aat R (kronecker_operator R rO radd rmul Binvs x) [j; c])) = aat R x [i; c].
+Proof. exact (kron_solver_mat_l R rO rI radd rmul rsub ropp Rth). Qed.
+
+(* fastdiag_solver (solvers.py:17-42), ANY dimension.  Hypotheses (contract of scipy.linalg.eigh,
+   not proved): per direction K U = M U diag(lam) and (M U) U^T = I (eig_ok); dinv is the
+   entrywise inverse of the eigenvalue sum diag (diag_ev, the recursive form of l.32-37).
+   Then L . (solver . x) = x for the Kronecker-sum matrix L = sum_d M (x)..(x) K_d (x)..(x) M
+   (lap_ent, recursive form K (x) kron(M..) + M (x) L(rest)), vector argument. *)
+Theorem fastdiag_inverts : forall (fs : list (eigfac R)) (Us : list (operand R)) (dinv : nat -> R) (x : arr R),
+  Forall (eig_ok R rO rI radd rmul) fs -> omats Us = map (fU R) fs ->
+  (forall c, c < prodl (sizes R fs) -> rmul (diag_ev R rO radd fs c) (dinv c) = rI) ->
+  ashape R x = [prodl (sizes R fs)] ->
+  forall i, i < prodl (sizes R fs) ->
+  sumn (prodl (sizes R fs))
+       (fun j => rmul (lap_ent R rO rI radd rmul fs i j) (aat R (fastdiag_apply R rO radd rmul Us dinv x) [j])) = aat R x [i].
+Proof. exact (fastdiag_inverts_l R rO rI radd rmul rsub ropp Rth). Qed.
+
 End Props.
 
 Print Assumptions apply_tprod_spec.
-Print Assumptions kron_dense_spec_partial.
+Print Assumptions kron_core_spec.
 Print Assumptions modek_sparse_spec.
 Print Assumptions block_spec.
 Print Assumptions block_transpose.
@@ -133,16 +261,31 @@ Print Assumptions subspace_transpose.
 Print Assumptions rowslice_spec.
 Print Assumptions rowsubset_spec.
 
-(* NOT PROVED (no theorem; covered by the exact correspondence run and the dense oracle only):
+Print Assumptions kron_dense_spec.
+Print Assumptions kron_dense_spec_multi.
+Print Assumptions kron_linops_spec.
+Print Assumptions kron_linops_spec_multi.
+Print Assumptions kron_operator_spec.
+Print Assumptions kron_operator_spec_multi.
+Print Assumptions kron_transpose.
+Print Assumptions kron_transpose_multi.
+Print Assumptions modek_tprod_shape.
+Print Assumptions modek_tprod_spec.
+Print Assumptions grid_block_spec.
+Print Assumptions grid_block_transpose.
+Print Assumptions kron_solver_inverts.
+Print Assumptions kron_solver_inverts_multi.
+Print Assumptions fastdiag_inverts.
 
-   kron_dense_spec: see kron_dense_spec_partial above.
-   kron_linops_spec: forall square ops and x of shape (N,), (N,1), (N,m),
-     _apply_kronecker_linops ops x = (A_1 (x) ... (x) A_n) . x.  Missing: the invariant of the
-     column-major sweeps (after the sweep for factor i the flat buffer holds the digits
-     (a_{i-1},..,a_0,a'_{n-1},..,a'_i,k), fastest first).
-   kron_transpose: follows from kron_dense_spec/kron_linops_spec applied to the transposed operands.
-   grid_block_spec: BlockOperator's layout (ranges from the first block row/column, null blocks skipped)
-     equals np.block of the grid; block_spec covers the accumulation for any placement.
-   modek_tprod_spec (rollaxis(-1,k) / moveaxis(0,k) put the new axis back in position k).
-   kron_solver_inverts, fastdiag_inverts: mixed-product property on tprod_spec + the factor solvers'
-     / eigh's contracts. *)
+(* NOT PROVED:
+   - fastdiag_inverts for several right-hand sides (the vector statement applied per column; the
+     composition l_op * DiagonalOperator * r_op is modelled for vectors only);
+   - the eigenvalue sum of solvers.py:32-37 (sum over d of the left-nested np.kron of vectors) equals
+     its recursive form diag_ev, and sum_d reduce(np.kron, [M..K_d..M]) equals lap_ent: both are
+     taken in recursive form in fastdiag_inverts;
+   - (M U) U^T = I is assumed in that form; eigh returns U^T M U = I, equivalent for square matrices
+     over a field (not derived here, R is only a commutative ring);
+   - kronecker.apply_kronecker's own dispatch (all ndarray -> dense, else aslinearoperator + linops)
+     has no separate theorem: it is kron_dense_spec / kron_linops_spec on the respective branch;
+   - adjoints (.H): real operands only, identified with the transpose in the model;
+   - the contracts of make_solver / eigh themselves (LAPACK, SuperLU): numerical residual check only. *)
